@@ -367,3 +367,91 @@ func branchLenAt(out []byte, bo int, mode int) int {
 	}
 	return in.Len
 }
+
+// c04RelaxEdges: situations in which the addresses behind a growing branch do NOT simply shift by the growth:
+// an ALIGNB behind it absorbs or amplifies the shift (a branch whose target lies behind the padding may need a
+// further round, and an implementation that re-chooses forms from scratch may never settle), a target that is an EQU
+// capturing `$` behind a grown branch, and a branch in the region in front of a second ORG.
+func c04RelaxEdges() *core.Scenario {
+	return &core.Scenario{
+		Name: "relaxation_edge_cases", Bound: -1,
+		Rule:   "(a) JMP/JE over RESB a / ALIGNB 16 / RESB b with the displacement around 127; (b) JE L2 ; JMP far ; RESB p ; ALIGNB 16 ; RESB c ; L2 ... far (the growth of JMP changes the padding in front of L2) for all p 0..15 and c around the rel8 bound; (c) CALL/JNE/JMP to a name defined as EQU $ behind a grown branch; (d) a branch inside the region in front of a second ORG - x BITS: every branch must land on its sentinel-located target and none may be refused; the run must terminate",
+		Bounds: map[string]any{"a": "96..112", "b": "8..20", "p": "0..15", "c": "90..112"},
+		Build: func(c *core.Chooser) *core.Case {
+			mode := []int{16, 32}[c.Pick("mode", 2)]
+			fam := c.Pick("family", 4)
+			hdr := ""
+			if mode == 32 {
+				hdr = "[BITS 32]\n"
+			}
+			type tgt struct {
+				mn         string
+				bsent, lab int // sentinel in front of the branch, sentinel at the label
+			}
+			var src, key string
+			var targets []tgt
+			origin := int64(0)
+			switch fam {
+			case 0:
+				mn := c.Str("mn", "JMP", "JE")
+				a := 96 + c.Pick("a", 17)
+				b := 8 + c.Pick("b", 13)
+				src = hdr + sentinelLine(0) + fmt.Sprintf("\t%s L\n\tRESB %d\n\tALIGNB 16\n\tRESB %d\nL:\n", mn, a, b) + sentinelLine(1)
+				targets = []tgt{{mn, 0, 1}}
+				key = fmt.Sprintf("over_alignb %s a=%d b=%d", mn, a, b)
+			case 1:
+				p := c.Pick("p", 16)
+				cc := 90 + c.Pick("c", 23)
+				src = hdr + fmt.Sprintf("\tRESB %d\n", p) + sentinelLine(0) + "\tJE L2\n" + sentinelLine(2) + "\tJMP far\n\tALIGNB 16\n" + fmt.Sprintf("\tRESB %d\nL2:\n", cc) + sentinelLine(1) + "\tRESB 200\nfar:\n" + sentinelLine(3)
+				targets = []tgt{{"JE", 0, 1}, {"JMP", 2, 3}}
+				key = fmt.Sprintf("padding_changes p=%d c=%d", p, cc)
+			case 2:
+				mn := c.Str("mn", "CALL", "JNE", "JMP")
+				gap := c.Int("gap", 0, 3, 100, 125)
+				src = hdr + "\tJMP far\n\tRESB 200\nfar:\nputc EQU $\n" + sentinelLine(1) + fmt.Sprintf("\tRESB %d\n", gap) + sentinelLine(0) + fmt.Sprintf("\t%s putc\n", mn) + "\tHLT\n"
+				targets = []tgt{{mn, 0, 1}}
+				key = fmt.Sprintf("equ_dollar_target %s gap=%d", mn, gap)
+			default:
+				mn := c.Str("mn", "JE", "JMP", "CALL")
+				n := c.Int("n", 0, 100, 119, 120, 130, 300)
+				origin = 0x7c00
+				src = hdr + "\tORG 0x7c00\n" + sentinelLine(0) + fmt.Sprintf("\t%s L\n\tRESB %d\nL:\n", mn, n) + sentinelLine(1) + "\tORG 0x7e00\n\tDB 1\nM:\n\tDW M\n"
+				targets = []tgt{{mn, 0, 1}}
+				key = fmt.Sprintf("branch_before_second_org %s n=%d", mn, n)
+			}
+			return &core.Case{
+				Key:  fmt.Sprintf("BITS %d|%s", mode, key),
+				Feat: feat("mode", fmt.Sprint(mode), "family", fmt.Sprint(fam)),
+				Srcs: []string{src},
+				Judge: func(rs []*core.Result) core.Verdict {
+					r := rs[0]
+					v := core.Verdict{}
+					if r.Timeout || (r.Died && r.ExitCode != 0 && r.Panic == "" && len(r.Out) == 0 && !core.ReportsError(r, nil)) {
+						v.Outcome = "no_answer"
+						v.Fails = []core.Fail{{Facet: "relaxation", Dev: "does_not_terminate", Detail: "no answer from the assembler for a program of a few lines"}}
+						return v
+					}
+					if core.ReportsError(r, nil) {
+						v.Outcome = "diagnosed"
+						v.Fails = []core.Fail{{Facet: "relaxation", Dev: "refused", Detail: "a program whose branches all have an encodable form was refused: " + errSummary(r)}}
+						return v
+					}
+					v.Outcome = "assembled"
+					v.Nontrivial = true
+					var lens []string
+					for _, t := range targets {
+						sb, sl := findSentinel(r.Out, t.bsent), findSentinel(r.Out, t.lab)
+						if sb < 0 || sl < 0 {
+							v.Fails = append(v.Fails, core.Fail{Facet: "layout", Dev: "sentinels_lost", Detail: hexs(r.Out[:min(len(r.Out), 48)])})
+							return v
+						}
+						v.Fails = append(v.Fails, judgeBranch(r, t.mn, mode, origin, sb+8, origin+int64(sl), false, 0)...)
+						lens = append(lens, fmt.Sprint(branchLenAt(r.Out, sb+8, mode)))
+					}
+					v.Outcome = "forms:" + strings.Join(lens, ",")
+					return v
+				},
+			}
+		},
+	}
+}
